@@ -574,7 +574,7 @@ impl SubCheck for UdpCheck {
         "paths"
     }
     fn rule(&self) -> String {
-        "two real proxies (A in front of B, B with socks / http / quic listeners): every UDP listener {SOCKS5 UDP ASSOCIATE with enforceUdpClient off/on, reverse-UDP, HTTP CONNECT with Proxy-Protocol: udp (RPFM frames inline)} x upstream {direct, socks5->B, http->B inline, QUIC datagrams->B, QUIC inline->B} once paced and once as a burst of six (enumerated), then generated cases of 1-5 concurrent sessions with 1-6 interleaved datagrams each to three tagging echo origins on 127.0.1.1-3, payload sizes from {0, 1, 8, 100, 1199, 1200, 1201, 1472, 4096, 9000, 30000, 65000} or arbitrary in 12..5000 (biased to 1100-1200 and 2250-2350), plus per pairing one paced session sweeping every size in 1120..1164, 2285..2304 and 1465..1474 (fragment boundaries), sessions that vanish while a slow reply is in flight, and burst sessions whose 1-6 datagrams (<= 1472 bytes) are sent back to back (inline: in one write) with the replies judged as a multiset, and hog sessions (HTTP-inline clients that send up to 16 MiB of paced datagrams with a 4 KiB receive buffer and never read a reply, so that their tunnel backs up) next to which the other sessions of the case must work as usual (enumerated once per shared upstream {http->B, quic-datagrams->B, quic-inline->B}, each on a fresh pair of proxies and judged after the flood's backlog has stopped moving); 105 short sessions one after the other through each shared QUIC upstream (more than its 100 concurrent streams: ended sessions must not hold a stream); oracle: every datagram (incl. the first of a session and multi-fragment ones) reaches the addressed origin exactly once with identical payload, every reply returns to the owning client labelled with the replying origin's address, no origin ever receives a datagram nobody sent (no phantom after a receive error); non-trivial = >= 2 interleaved sessions, a vanishing client, a burst of >= 2, or a payload above 1200 bytes".into()
+        "two real proxies (A in front of B, B with socks / http / quic listeners): every UDP listener {SOCKS5 UDP ASSOCIATE with enforceUdpClient off/on, reverse-UDP, HTTP CONNECT with Proxy-Protocol: udp (RPFM frames inline)} x upstream {direct, socks5->B, http->B inline, QUIC datagrams->B, QUIC inline->B} once paced and once as a burst of six (enumerated), then generated cases of 1-5 concurrent sessions with 1-6 interleaved datagrams each to three tagging echo origins on 127.0.1.1-3, payload sizes from {0, 1, 8, 100, 1199, 1200, 1201, 1472, 4096, 9000, 30000, 65000} or arbitrary in 12..5000 (biased to 1100-1200 and 2250-2350), plus per pairing one paced session sweeping every size in 1120..1164, 2285..2304 and 1465..1474 (fragment boundaries), sessions that vanish while a slow reply is in flight, and burst sessions whose 1-6 datagrams (<= 1472 bytes) are sent back to back (inline: in one write) with the replies judged as a multiset, and hog sessions (HTTP-inline clients that send up to 16 MiB of paced datagrams with a 4 KiB receive buffer and never read a reply, so that their tunnel backs up) next to which the other sessions of the case must work as usual (enumerated once per shared upstream {http->B, quic-datagrams->B, quic-inline->B}, each on a fresh pair of proxies and judged after the flood's backlog has stopped moving); 600 concurrent sessions with one datagram each through the direct connector (upstream sockets on ephemeral ports must not cross their replies), 105 short sessions one after the other through each shared QUIC upstream (more than its 100 concurrent streams: ended sessions must not hold a stream); oracle: every datagram (incl. the first of a session and multi-fragment ones) reaches the addressed origin exactly once with identical payload, every reply returns to the owning client labelled with the replying origin's address, no origin ever receives a datagram nobody sent (no phantom after a receive error); non-trivial = >= 2 interleaved sessions, a vanishing client, a burst of >= 2, or a payload above 1200 bytes".into()
     }
     fn run(&self, part: &mut Part) {
         let n = part.tier.pick(30, 700) as usize;
@@ -650,6 +650,19 @@ impl SubCheck for UdpCheck {
                         }
                     }
                 }
+            }
+            // very many concurrent sessions whose upstream sockets have ephemeral ports: each reply must come back
+            // to its own session (two upstream sockets that share a port would cross their replies)
+            if std::env::var("VERIF_C10_REPEAT_CONNECTOR").is_err() {
+                let fx = fixture().await?;
+                let c = Case { sessions: (0..600).map(|i| SessionSpec { listener: if i % 3 == 2 { 2 } else { 0 }, connector: 0, sends: vec![((i % 3) as u8, 3)], vanish: false, enforce_client: false, burst: false, hog: false }).collect() };
+                let r = run_case(&fx, &c, tag).await.map_err(|mut f| {
+                    f.key = format!("600-concurrent-sessions:{}", f.key);
+                    f.desc = format!("600 concurrent sessions through the direct connector, one datagram each: {}", f.desc);
+                    f
+                });
+                tag += 1024;
+                out.push((c, r));
             }
             // the flooding clients: each on a fresh pair of proxies
             for c in hog_cases {
